@@ -79,18 +79,62 @@ def platformOK (h : Host) (n : Node) : Bool :=
 
 def BuildGraph.node? (g : BuildGraph) (i : Nat) : Option Node := g.nodes[i]?
 
-/-- filter / platform test by node index (indices outside the table fail both) -/
+/-- filter / platform test by node index (indices outside the table fail both): `nodeMatchesFilters`,
+    `nodeMatchesPlatform` — what the ancestor walk and the query filters (`Selector.Match`) apply to a node -/
 def BuildGraph.matchesAt (g : BuildGraph) (s : Selector) (i : Nat) : Bool :=
   match g.nodes[i]? with | some n => matchesFilters s n | none => false
 def BuildGraph.platAt (g : BuildGraph) (h : Host) (i : Nat) : Bool :=
   match g.nodes[i]? with | some n => platformOK h n | none => false
 
+/-- `resolveAliasedTarget`: follow a chain of aliases (the only dependency of an alias is the node it points
+    to) to the target it ends in; `none` if it does not end in a target. The Go loop stops at a repeated
+    label; a chain without repetition has at most `|nodes|` links, which is the fuel. -/
+def BuildGraph.resolveFrom (g : BuildGraph) : Nat → Nat → Option Node
+  | 0, _ => none
+  | fuel + 1, i =>
+    match g.nodes[i]? with
+    | none => none
+    | some n =>
+      if n.isTarget then some n
+      else match preds g.edges i with
+        | [] => none
+        | d :: _ => g.resolveFrom fuel d
+
+def BuildGraph.resolve (g : BuildGraph) (i : Nat) : Option Node := g.resolveFrom (g.nodes.length + 1) i
+
+/-- `Selector.nodeIsSelectedBy` (the starting points of a selection): a target by `nodeMatchesFilters`; an
+    alias by its own label against the patterns and the target it points to against the type / tag /
+    exclude-tag filters (before the `fix:` commit for alias-bypasses-filters: by the patterns alone). -/
+def BuildGraph.selMatchesAt (g : BuildGraph) (s : Selector) (i : Nat) : Bool :=
+  match g.nodes[i]? with
+  | none => false
+  | some n =>
+    if n.isTarget then matchesFilters s n
+    else patternsOK s.patterns n.label &&
+      (match g.resolve i with
+       | some t => typeOK s.typ t && tagsOK s.tags t.tags && !excluded s.excludeTags t.tags
+       | none => true)
+
+/-- `nodeIsSelectablePlatform`: an alias matches the platform if the target it points to does -/
+def BuildGraph.selPlatAt (g : BuildGraph) (h : Host) (i : Nat) : Bool :=
+  match g.nodes[i]? with
+  | none => false
+  | some n =>
+    if n.isTarget then platformOK h n
+    else match g.resolve i with
+      | some t => platformOK h t
+      | none => true
+
+/-- the selection of the tree before the fix: aliases by pattern alone (regression witness) -/
+def BuildGraph.selMatchesAtOld (g : BuildGraph) (s : Selector) (i : Nat) : Bool := g.matchesAt s i
+
 /-- outcome of `SelectTargetsForBuild` -/
 inductive SelRes where
   /-- nodes with `IsSelected` set, number of loop iterations + calls spent -/
   | ok (selected : List Nat) (cost : Nat)
-  /-- "could not select node … because it depends on …, which does not match the platform" -/
-  | platformError (culprit : Nat)
+  /-- "could not select node … because it depends on …, which does not match the platform"; the steps spent
+      until the error -/
+  | platformError (culprit : Nat) (cost : Nat)
   | fuel
 deriving DecidableEq, Repr
 
@@ -108,17 +152,17 @@ def selectLoop (es : List Edge) (ok : Nat → Bool) : List Nat → List Nat → 
       -- dependencies of `r` are `inEdges[r]`: successors in the flipped graph
       match dfs (flipEdges es) ok es.length (succs (flipEdges es) r) (r :: vis) with
       | .done vis' steps => selectLoop es ok rs vis' (cost + 1 + steps)
-      | .bad c _ => .platformError c
+      | .bad c steps => .platformError c (cost + 1 + steps)
       | .fuel => .fuel
 
 /-- the nodes the first loop of `SelectTargetsForBuild` starts from, given the iteration order of
     `graph.GetNodes()` (a Go map: any order) -/
 def BuildGraph.roots (g : BuildGraph) (s : Selector) (h : Host) (order : List Nat) : List Nat :=
-  order.filter (fun i => g.matchesAt s i && g.platAt h i)
+  order.filter (fun i => g.selMatchesAt s i && g.selPlatAt h i)
 
 /-- `platformSkipped` -/
 def BuildGraph.skipped (g : BuildGraph) (s : Selector) (h : Host) : Nat :=
-  ((List.range g.nodes.length).filter (fun i => g.matchesAt s i && !g.platAt h i)).length
+  ((List.range g.nodes.length).filter (fun i => g.selMatchesAt s i && !g.selPlatAt h i)).length
 
 /-- `Selector.SelectTargetsForBuild(graph)` of the current code; `order` is the iteration order of the node map -/
 def selectForBuild (g : BuildGraph) (s : Selector) (h : Host) (order : List Nat) : SelRes :=
@@ -145,6 +189,6 @@ def selectAncestorsPaths (es : List Edge) (ok : Nat → Bool) : Nat → Nat → 
 
 /-- `Selector.SelectTargets` (query selection, used by `grog list`): no closure -/
 def selectForQuery (g : BuildGraph) (s : Selector) (h : Host) : List Nat :=
-  (List.range g.nodes.length).filter (fun i => g.matchesAt s i && g.platAt h i)
+  (List.range g.nodes.length).filter (fun i => g.selMatchesAt s i && g.selPlatAt h i)
 
 end Grog
